@@ -609,8 +609,14 @@ def doc_case(ctx, out, case):
             sc = "selfcheck-ok"
         except BaseException:  # noqa
             sc = "selfcheck-FAILS"
-        wf = "wf" if not tree_oracle(existing, False) else "NOT-wf"
+        bad = tree_oracle(existing, False)
+        wf = "wf" if not bad else "NOT-wf"
         out.dist[f"existing-after-refusal:{'unchanged' if after == before else 'partial-insertion'}:{sc}:{wf}:{res}"] += 1
+        # whatever stopped node.from_dict() (a refusal, or an exception escaping from the mapper / the id callback at some
+        # invocation): the existing tree must still be well-formed (C01-C03 conjuncts; C13)
+        if bad or sc != "selfcheck-ok":
+            out.fail(case, f"{route} stopped with {res}; afterwards the existing tree is not well-formed: {(bad or ['_self_check() fails'])[0]}; doc {json.dumps(doc)[:300]}",
+                     problems=bad[:5])
     # ---- model
     if route == "load":
         req = {"op": "ser.load", "doc": doc, "typed": typed, "deser": mode}
@@ -631,15 +637,15 @@ def doc_case(ctx, out, case):
     return res, ev
 
 
-def documents_campaign(ctx, out):
+def documents_campaign(ctx, out, scale=1.0):
     pool = ctx.pool
     rng = ctx.rng
-    target = 160 if ctx.thorough else 55          # hits per mutation kind
+    target = int((160 if ctx.thorough else 55) * scale)          # hits per mutation kind
     hits = {k: 0 for k in list(NODE_MUTATIONS) + list(DICT_MUTATIONS)}
     KM = [None, {"data_id": "i", "str": "s", "kind": "k"}, {"data_id": "i", "str": "s", "kind": "k", "type": "t", "name": "n", "o": "x"}]
     k = 0
-    max_docs = 40000 if ctx.thorough else 6000
-    while k < max_docs and (min(hits.values()) < target or k < (3000 if ctx.thorough else 600)):
+    max_docs = int((40000 if ctx.thorough else 6000) * scale)
+    while k < max_docs and (min(hits.values()) < target or k < int((3000 if ctx.thorough else 600) * scale)):
         k += 1
         nodes_route = k % 3 != 0
         objs = k % 2 == 1
